@@ -290,6 +290,108 @@ static void run_manual(std::istream &in) {
     }
 }
 
+
+// ------------------------------------------------------------------------------------------------
+// run mode: scheduler::start(awaitable) in the only thread, virtual time.
+//   co <act>...   one sleeper coroutine; acts: s<d>:<id> sleep_for   u<t>:<id> sleep_until
+//                 c<id> cancel (plain call)   a<id> co_await cancel   x<id>:<code> / y<id>:<code> same with an exception
+//   go            creates the coroutines in order (each runs up to its first suspension), then runs
+//                 sch.start(all_done) until the last coroutine has finished; prints the event trace
+// events: S<k>@<clock>:<tp>:<id> sleep issued, W<k>@<clock>=<outcome> woken, C<k>@<clock>:<id>=<r> cancel result,
+//         D<k>@<clock> finished, wait:<from>-><to> the scheduling thread blocked until <to>, ret@<clock> start() returned
+// ------------------------------------------------------------------------------------------------
+struct act_t {
+    char kind;
+    long long a = 0, b = 0;
+};
+
+struct run_ctx {
+    sch_t &sch;
+    std::vector<std::string> &ev;
+    int live = 0;
+    scheduler::promise done;
+};
+
+static async<void> sleeper(run_ctx &cx, int k, std::vector<act_t> script) {
+    auto tag = [&](const char *c) { return std::string(c) + std::to_string(k) + "@" + std::to_string(vt::now_ticks); };
+    for (auto &a : script) {
+        if (a.kind == 's' || a.kind == 'u') {
+            long long tp = a.kind == 's' ? vt::now_ticks + a.a : a.a;
+            cx.ev.push_back(tag("S") + ":" + std::to_string(tp) + ":" + std::to_string(a.b));
+            std::string o = "ok";
+            try {
+                if (a.kind == 's') co_await cx.sch.sleep_for(std::chrono::milliseconds(a.a), ID(a.b));
+                else co_await cx.sch.sleep_until(TP(a.a), ID(a.b));
+            } catch (const await_canceled_exception &) {
+                o = "canceled";
+            } catch (const test_exc &e) {
+                o = "exc:" + std::to_string(e.code);
+            }
+            cx.ev.push_back(tag("W") + "=" + o);
+        } else {
+            bool r;
+            if (a.kind == 'c') r = cx.sch.cancel(ID(a.a));
+            else if (a.kind == 'a') r = co_await cx.sch.cancel(ID(a.a));
+            else if (a.kind == 'x') r = cx.sch.cancel(ID(a.a), std::make_exception_ptr(test_exc((int)a.b)));
+            else r = co_await cx.sch.cancel(ID(a.a), std::make_exception_ptr(test_exc((int)a.b)));
+            cx.ev.push_back(tag("C") + ":" + std::to_string(a.a) + "=" + (r ? "1" : "0"));
+        }
+    }
+    cx.ev.push_back(tag("D"));
+    if (--cx.live == 0) cx.done();
+}
+
+static std::vector<act_t> parse_script(const std::vector<std::string> &w) {
+    std::vector<act_t> out;
+    for (std::size_t i = 1; i < w.size(); ++i) {
+        act_t a;
+        a.kind = w[i][0];
+        const char *p = w[i].c_str() + 1;
+        char *e;
+        a.a = strtoll(p, &e, 10);
+        if (*e == ':') a.b = strtoll(e + 1, &e, 10);
+        out.push_back(a);
+    }
+    return out;
+}
+
+static void run_start(std::istream &in, long long t0) {
+    vt::single_thread = true;
+    vt::now_ticks = t0;
+    vt::horizon = 1000000000LL;
+    std::vector<std::vector<act_t>> scripts;
+    std::vector<std::string> evs;
+    std::string line;
+    while (std::getline(in, line)) {
+        auto w = vh::split(line);
+        if (w.empty()) continue;
+        if (w[0] == "end") {
+            vh::emit("end", evs);
+            return;
+        } else if (w[0] == "co") {
+            scripts.push_back(parse_script(w));
+            std::cout << "co#" << scripts.size() - 1 << "\n";
+        } else if (w[0] == "go") {
+            {
+                sch_t sch;
+                future<void> all_done;
+                run_ctx cx{sch, evs, (int)scripts.size(), all_done.get_promise()};
+                vt::trace = &evs;
+                if (scripts.empty()) cx.done();
+                for (std::size_t k = 0; k < scripts.size(); ++k) sleeper(cx, (int)k, scripts[k]).detach();
+                sch.start(all_done);
+                vt::trace = nullptr;
+                evs.push_back("ret@" + std::to_string(vt::now_ticks));
+                evs.push_back(sch.dump());
+            }
+            vh::emit("go", evs);
+            scripts.clear();
+        } else {
+            std::cout << "bad-op\n";
+        }
+    }
+}
+
 int main() {
     std::string line;
     while (std::getline(std::cin, line)) {
@@ -298,6 +400,7 @@ int main() {
         std::cout << "case " << w[1] << "\n";
         const std::string kind = w.size() > 2 ? w[2] : "";
         if (kind == "man") run_manual(std::cin);
+        else if (kind == "run") run_start(std::cin, w.size() > 3 ? atoll(w[3].c_str()) : 0);
         else std::cout << "bad-kind\n";
         std::cout.flush();
     }
